@@ -163,6 +163,16 @@ def work(item):
                         break
                     l2 = l_.clone()
                     update_live(l2, ins, r.retval, pool, r.state)
+                    for k_ in range(NSLOTS):
+                        if l2.s[k_] is None:
+                            continue
+                        rw = pool.raw(r.state, k_)
+                        if rw['isinit'] == 1 and rw['isinit_d'] == 1:
+                            problem = 'step %d (%s): slot %d is flagged both as owning its storage and as bound to user storage' % (n, ins.describe(), k_)
+                        elif isinstance(rw['dim'], int) and isinstance(rw['size'], int) and rw['size'] != rw['dim'] * rw['dim']:
+                            problem = 'step %d (%s): slot %d has dimension %d but size %d' % (n, ins.describe(), k_, rw['dim'], rw['size'])
+                    if problem:
+                        break
                     nxt.append((r.state, l2))
                 if problem:
                     break
@@ -258,6 +268,8 @@ def replay(chk, c):
     if res['report']:
         lines = [l for l in res['report'].split('\n') if l.strip()]
         return True, 'sanitizer/ledger: ' + lines[0][:200]
+    if res.get('invariant'):
+        return True, 'native object representation: ' + res['invariant']
     return False, 'native run clean (exit %d)' % res['exit']
 
 
@@ -295,6 +307,8 @@ def native_battery_item(item):
         res = native_replay(prog, nslots=NSLOTS, nbufs=3, tag='c15bat%d' % os.getpid())
     except Exception as e:
         return None
+    if not res['report'] and res.get('invariant'):
+        res['report'] = 'object representation: ' + res['invariant']
     if not res['report']:
         return None
     first = [l for l in res['report'].split('\n') if l.strip()][0][:200]
